@@ -3,10 +3,14 @@
 
 Phases: extract StorageModeTable → Lean proofs + axiom audit → in-process correspondence and
 oracles (suite c08) → end-to-end: every note-writing path × prompt-storage configuration ×
-agent kind on the real binary, walking every blob reachable from refs/notes/ai.
+agent kind on the real binary, walking every blob reachable from refs/notes/ai; and, beside it, the
+default mode WITH CAS upload (custom API base URL): 2-4 sessions per commit / amend while single
+INSERTs into the sqlite upload queue are made to fail (trigger on cas_sync_queue per session, a second
+connection holding BEGIN IMMEDIATE, an unopenable database) — same blob walk, plus the Lean `Default`
+arm on the same prompt map and outcome vector.
 The test-suite's forced `prompt_storage=notes` is NOT used: each scenario sets its own mode.
 """
-import concurrent.futures, json, os, random, re, subprocess, sys, tempfile, traceback
+import concurrent.futures, json, os, random, re, shutil, sqlite3, subprocess, sys, tempfile, time, traceback
 
 from vlib import common as C
 from vlib import e2e
@@ -23,6 +27,14 @@ THEOREMS = [
     "GitAi.Redact.invalid_mode_string_never_notes",
     "GitAi.Redact.policy_tie",
     "GitAi.Redact.redacted_kinds_tie",
+    "GitAi.Redact.enqueue_shape_tie",
+    "GitAi.Redact.current_shape_safe",
+    "GitAi.Redact.default_mode_no_messages",
+    "GitAi.Redact.safe_shape_no_messages",
+    "GitAi.Redact.default_mode_no_messages_current",
+    "GitAi.Redact.unsafe_shape_leaks",
+    "GitAi.Redact.seed1_shape_rejected",
+    "GitAi.Redact.seed1_shape_leaks",
     "GitAi.Redact.no_transcript_unless_notes",
     "GitAi.Redact.current_table_ok",
     "GitAi.Redact.no_transcript_unless_notes_current",
@@ -69,7 +81,7 @@ def phase_extract(res):
     res.obligation("extract StorageModeTable", True, "extraction")
     res.extra["storage_mode_table"] = {
         "writers": [{k: r[k] for k in ("name", "file", "target", "reads_wl", "filters")} for r in x["rows"]],
-        "policy": x["policy"], "constants": x["consts"], "redacted_kinds": x["kinds"], "skipped_kinds": x["skipped"]}
+        "policy": x["policy"], "enqueue_shape": x["shape"], "constants": x["consts"], "redacted_kinds": x["kinds"], "skipped_kinds": x["skipped"]}
     return x
 
 
@@ -626,6 +638,270 @@ def phase_e2e(res, tier, seed, name="e2e"):
     return results
 
 
+# ---------------------------------------------------------------- default mode with CAS upload: per-session faults
+
+CAS_WRITERS = {"commit": "post_commit", "amend": "rewrite_authorship_after_commit_amend"}   # scenario path -> writer it reaches
+CAS_API = "http://127.0.0.1:9"     # nothing listens; the upload itself is asynchronous and never reached
+
+
+def cas_plan(tier, seed):
+    """(path, n_sessions, index of the session WITHOUT transcript or None, fault) per scenario.
+    fault: ("trigger", [failing session indices]) — a BEFORE INSERT trigger on cas_sync_queue raises for
+    exactly the rows carrying one of these sessions' transcripts (any sqlite error at the INSERT: full disk,
+    damaged table, constraint); ("lock",) — a second connection holds BEGIN IMMEDIATE during the commit
+    (SQLITE_BUSY after the 5 s busy timeout: every INSERT fails); ("nodb",) — the database file is replaced
+    by a directory before the commit (every statement fails); ("none",)."""
+    rng = random.Random(f"cas/{seed}")
+    plan = []
+    for mask in range(4):                                  # two sessions, every outcome vector
+        plan.append(("commit", 2, None, ("trigger", [i for i in range(2) if mask >> i & 1])))
+    masks3 = list(range(1, 8)); rng.shuffle(masks3)
+    for mask in masks3[: 3 if tier == "quick" else 7]:     # three sessions, one of them possibly silent
+        failing = [i for i in range(3) if mask >> i & 1]
+        plan.append(("commit", 3, rng.choice([None] + [i for i in range(3) if i not in failing]), ("trigger", failing)))
+    plan.append(("commit", 2, None, ("lock",)))
+    plan.append(("commit", 2, None, ("nodb",)))
+    plan.append(("amend", 2, None, ("trigger", [1])))      # session 0 already in the note (url, no messages)
+    plan.append(("amend", 3, None, ("trigger", [rng.choice([1, 2])])))
+    plan.append(("amend", 2, None, ("nodb",)))
+    if tier == "thorough":
+        plan.append(("amend", 2, None, ("lock",)))
+        for _ in range(6):
+            n = rng.choice([3, 4])
+            pth = rng.choice(["commit", "amend"])
+            failing = sorted(rng.sample(range(1 if pth == "amend" else 0, n), rng.randint(1, n - 1)))
+            plan.append((pth, n, rng.choice([None] + [i for i in range(1 if pth == "amend" else 0, n) if i not in failing]),
+                         ("trigger", failing)))
+    return plan
+
+
+def run_cas_scenario(spec, seed, binary=None):
+    """spec = [path, n, silent, fault]. Returns the observation (note of HEAD per prompt, blob walk, queue)."""
+    path, n, silent, fault = spec[0], spec[1], spec[2], tuple(spec[3])
+    rng = random.Random(f"cas/{seed}/{json.dumps(spec)}")
+    tag = "".join(rng.choice("abcdefghjkmnpqrstuvwxyz") for _ in range(5))
+    sess = []
+    for i in range(n):
+        sid = f"cs{tag}{i}"
+        can = {"User": f"CN{tag}{i}Usr", "Asst": f"CN{tag}{i}Ast"}
+        msgs = [] if i == silent else [{"type": "user", "text": f"{can['User']} please refactor step {i}"},
+                                       {"type": "assistant", "text": f"{can['Asst']} done é"}]
+        sess.append({"i": i, "sid": sid, "hash": e2e.short_hash(sid, "mock_agent"), "canaries": can, "messages": msgs,
+                     "file": f"s{i}.txt"})
+    obs = {"spec": [path, n, silent, list(fault)], "errors": [], "sessions": [{k: x[k] for k in ("i", "sid", "hash", "messages")} for x in sess]}
+    kw = {"binary": binary} if binary else {}
+    with e2e.Env(prompt_storage="default", extra_env={"GIT_AI_API_BASE_URL": CAS_API}, **kw) as env:
+        r = env.repo("r")
+        db = env.env["GIT_AI_TEST_DB_PATH"]
+        try:
+            r.write("base.txt", "b\n")
+            for x in sess:
+                r.write(x["file"], "l1\nl2\n")
+            r.git("add", "-A")
+            assert r.commit("base"), "base commit"
+            first = sess[:1] if path == "amend" else []
+            rest = sess[1:] if path == "amend" else sess
+
+            def edit(x, k):
+                r.write(x["file"], f"l1\nAI-{x['i']}-{k}\nl2\n")
+                rc, _, err = r.ai_checkpoint(x["sid"], [x["file"]], transcript={"messages": x["messages"]})
+                assert rc == 0, f"checkpoint: {err[-200:]}"
+            for x in first:                       # amend: session 0 is committed (and uploaded) normally first
+                edit(x, 0)
+                assert r.commit("c1"), "first commit"
+            for x in rest:
+                edit(x, 1)
+            r.git("add", "-A")
+            assert os.path.isfile(db), "internal database was not created"
+            con = None
+            if fault[0] == "trigger":
+                con = sqlite3.connect(db, timeout=30, isolation_level=None)
+                conds = " OR ".join("NEW.data LIKE '%" + sess[i]["canaries"]["User"] + "%'" for i in fault[1]) or "0"
+                con.execute(f"CREATE TRIGGER verif_fault BEFORE INSERT ON cas_sync_queue WHEN {conds} "
+                            "BEGIN SELECT RAISE(ABORT, 'verif: injected INSERT failure'); END")
+                con.close(); con = None
+            elif fault[0] == "lock":
+                con = sqlite3.connect(db, timeout=30, isolation_level=None)
+                con.execute("BEGIN IMMEDIATE")
+            elif fault[0] == "nodb":
+                os.rename(db, db + ".away")
+                os.makedirs(db)
+            t0 = time.time()
+            try:
+                if path == "amend":
+                    rc, _, err = r.git("commit", "--amend", "-q", "--no-edit")
+                else:
+                    rc, _, err = r.git("commit", "-q", "-m", "c-cas")
+            finally:
+                if con is not None:
+                    con.execute("ROLLBACK"); con.close()
+            obs["commit_seconds"] = round(time.time() - t0, 2)
+            assert rc == 0, f"commit failed: {err[-300:]}"
+            if fault[0] == "nodb":
+                shutil.rmtree(db, ignore_errors=True)
+                os.rename(db + ".away", db)
+        except AssertionError as e:
+            obs["errors"].append(f"scenario step failed: {e}")
+        except Exception as e:
+            obs["errors"].append(f"scenario error: {e!r}")
+        head = r.head()
+        blobs, ncommits = notes_blobs(r)
+        obs["blobs"], obs["notes_commits"] = len(blobs), ncommits
+        note = r.note(head) if head else None
+        obs["head_has_note"] = note is not None
+        prompts = {}
+        if note and note["meta"] and isinstance(note["meta"].get("prompts"), dict):
+            for pid, p in note["meta"]["prompts"].items():
+                prompts[pid] = {"messages": p.get("messages") or [], "url": p.get("messages_url")}
+        obs["note_prompts"] = prompts
+        hits = []
+        for oid, body in blobs.items():
+            for x in sess:
+                for k, c in x["canaries"].items():
+                    if c in body:
+                        hits.append({"blob": oid, "session": x["i"], "where": k, "value": c})
+        obs["hits"] = hits
+        queued = []
+        try:
+            con = sqlite3.connect(db, timeout=30)
+            rows = con.execute("SELECT hash, data FROM cas_sync_queue").fetchall()
+            con.close()
+            for h, data in rows:
+                for x in sess:
+                    if x["canaries"]["User"] in (data or ""):
+                        queued.append({"session": x["i"], "hash": h})
+        except Exception as e:
+            obs["errors"].append(f"queue read: {e!r}")
+        obs["queued"] = queued
+        obs["ncmd"] = env.ncmd
+    return obs
+
+
+def cas_model(obs):
+    """the Lean model's `Default` arm on the prompt map this scenario hands to the filter (map order = key order),
+    with the injected outcome vector; returns (request, {hash: {"messages": n, "url": bool}}, predicted queued set)"""
+    path, n, silent, fault = obs["spec"]
+    sess = sorted(obs["sessions"], key=lambda x: x["hash"])          # BTreeMap<String, PromptRecord> order
+    committed_first = {0} if path == "amend" else set()
+    prompts, outs, queued = [], [], set()
+    failing = set(fault[1]) if fault[0] == "trigger" else (set(range(n)) if fault[0] in ("lock", "nodb") else set())
+    failed = False
+    for x in sess:
+        first = x["i"] in committed_first
+        msgs = [] if first else [{"k": m["type"], "text": m["text"]} for m in x["messages"]]
+        # a session committed before carries its url from the existing note and no messages
+        prompts.append({"id": x["hash"], "messages": msgs, "url": "PREV" if (first and x["messages"]) else None})
+        if first and x["messages"]:
+            queued.add(x["i"])
+        if msgs:
+            if x["i"] in failing:
+                outs.append({"k": "enqueue_err"}); failed = True
+            else:
+                outs.append({"k": "ok", "url": f"U{x['i']}"})
+                if not failed:
+                    queued.add(x["i"])
+    req = {"op": "rd_default_arm", "prompts": prompts, "verdicts": [], "should_enqueue": True, "db_opens": True, "outs": outs}
+    resp = C.run_driver([req])[0]
+    pred = None
+    if isinstance(resp, dict) and "ok" in resp:
+        pred = {p["id"]: {"messages": len(p["messages"]), "url": p["url"] is not None} for p in resp["ok"]["prompts"]}
+    return req, pred, queued, resp
+
+
+def cas_judge(res, obs, name="e2e-cas"):
+    """oracles + model tie for one CAS scenario; returns True when the scenario was valid"""
+    path, n, silent, fault = obs["spec"]
+    key = f"cas|{path}|n={n}|silent={silent}|{fault[0]}:{','.join(map(str, fault[1])) if len(fault) > 1 else ''}"
+    res.count_case(key)
+    res.tag([f"cas-path={path}", f"cas-sessions={n}", f"cas-fault={fault[0]}", f"cas-failing={len(fault[1]) if len(fault) > 1 else 'all' if fault[0] != 'none' else 0}",
+             f"cas-silent={'yes' if silent is not None else 'no'}"])
+    if obs["errors"] or not obs.get("blobs") or not obs.get("head_has_note"):
+        res.broken_tie(f"{name}: scenario {key} did not exercise its note writer",
+                       {"errors": obs["errors"], "blobs": obs.get("blobs"), "head_has_note": obs.get("head_has_note")})
+        return False
+    w = {"cas": obs["spec"], "hits": obs["hits"][:6], "note_prompts": {k: {"messages": len(v["messages"]), "url": v["url"]} for k, v in obs["note_prompts"].items()},
+         "recipe": "vlib/props/c08.py: run_cas_scenario(spec=witness['cas'], seed) — prompt_storage=default, GIT_AI_API_BASE_URL set, "
+                   "sqlite fault on cas_sync_queue during the commit; ./check C08 --replay <this file> re-runs it"}
+    # ---- property oracle (no model involved)
+    if obs["hits"]:
+        res.oracle_failure(f"transcript-in-notes:cas-{path}", w,
+                           what=f"mode default with CAS upload, fault {fault}: conversation text reachable from refs/notes/ai after {path}")
+    elif any(v["messages"] for v in obs["note_prompts"].values()):
+        res.oracle_failure(f"transcript-in-notes:cas-{path}", w,
+                           what=f"mode default with CAS upload, fault {fault}: a note carries messages after {path}")
+    # ---- model tie: which records have messages / a messages_url; which sessions reached the queue
+    req, pred, queued, resp = cas_model(obs)
+    seen = {pid: {"messages": len(v["messages"]), "url": v["url"] is not None} for pid, v in obs["note_prompts"].items()}
+    if pred is not None:
+        res.tag([f"cas-model-urls={sum(1 for v in pred.values() if v['url'])}/{len(pred)}"])
+    if pred is None or pred != seen:
+        res.broken_tie(f"{name}: Default arm of apply_prompt_storage_mode vs model ({key})", {"req": req, "model": pred if pred is not None else resp, "note": seen})
+    got_q = {q["session"] for q in obs["queued"]}
+    if got_q != queued:
+        res.broken_tie(f"{name}: injected enqueue outcomes vs cas_sync_queue ({key})", {"expected_sessions_in_queue": sorted(queued), "found": sorted(got_q)})
+    if fault[0] == "lock" and obs.get("commit_seconds", 0) < 4.0:
+        res.broken_tie(f"{name}: the BEGIN IMMEDIATE lock did not delay the commit ({key})", {"seconds": obs.get("commit_seconds")})
+    for pid, v in obs["note_prompts"].items():
+        if v["url"] and not v["url"].startswith(CAS_API + "/cas/"):
+            res.broken_tie(f"{name}: messages_url shape ({key})", v["url"])
+    return True
+
+
+def phase_cas_collect(res, futs, tier, seed, name="e2e-cas"):
+    results = []
+    for spec, f in futs:
+        try:
+            results.append(f.result())
+        except Exception as e:
+            results.append({"spec": list(spec[:3]) + [list(spec[3])], "errors": [f"runner: {e!r}"], "sessions": [], "hits": [], "note_prompts": {}, "queued": []})
+    for k, o in enumerate(results):      # a scenario that did not reach its writer is retried once, alone
+        if o["errors"] or not o.get("blobs") or not o.get("head_has_note"):
+            try:
+                o2 = run_cas_scenario(o["spec"], seed)
+                o2["retried_after"] = o["errors"][:2]
+                results[k] = o2
+            except Exception as e:
+                o["errors"].append(f"retry: {e!r}")
+    valid = sum(1 for o in results if cas_judge(res, o, name))
+    res.obligation(f"{name}: every CAS-upload scenario reached its note writer ({valid}/{len(results)})", valid == len(results), "correspondence")
+    res.extra.setdefault("e2e_cas", {}).update({
+        "scenarios": len(results), "valid": valid, "commands": sum(o.get("ncmd", 0) for o in results),
+        "faults": sorted({o["spec"][3][0] for o in results}),
+        "what": "prompt_storage=default + GIT_AI_API_BASE_URL: 2-4 sessions per commit / amend; per-session INSERT failures injected by a "
+                "sqlite trigger on cas_sync_queue, a BEGIN IMMEDIATE lock held by a second connection, or an unopenable database; "
+                "oracle = blob walk of refs/notes/ai + messages per prompt; tie = Lean Default arm on the same prompt map and outcome vector"})
+    for o in results[:2]:
+        res.sample({"e2e_cas": {k: o.get(k) for k in ("spec", "hits", "queued", "commit_seconds")},
+                    "note": {k: {"messages": len(v["messages"]), "url": bool(v["url"])} for k, v in o.get("note_prompts", {}).items()}})
+    return results
+
+
+def phase_cas_start(ex, tier, seed):
+    """submit the CAS scenarios (the lock scenario waits out rusqlite's 5 s busy timeout twice: it runs beside the others)"""
+    return [(spec, ex.submit(run_cas_scenario, [spec[0], spec[1], spec[2], list(spec[3])], seed)) for spec in cas_plan(tier, seed)]
+
+
+def replay_cli(path, spec):
+    """./check C08 --replay <file>: a CAS witness is re-executed exactly; anything else re-runs the recorded tier/seed"""
+    m = re.search(r"-(\d+)-(quick|thorough)\.json$", path)
+    seed = int(spec.get("seed") or (m.group(1) if m else 1))
+    tier = spec.get("tier") or (m.group(2) if m else "quick")
+    w = spec.get("witness") or {}
+    if isinstance(w, dict) and "cas" in w:
+        ok, out = C.build_git_ai()
+        if not ok:
+            print("build of git-ai failed"); return 2
+        obs = run_cas_scenario(w["cas"], seed)
+        res = C.Result(PROP, "replay", seed)
+        cas_judge(res, obs, "replay")
+        print(json.dumps({"spec": obs["spec"], "hits": obs["hits"], "errors": obs["errors"],
+                          "note_prompts": {k: {"messages": len(v["messages"]), "url": v["url"]} for k, v in obs["note_prompts"].items()}}, indent=1))
+        if res.violations:
+            print(f"VIOLATION property={PROP} replay={path}"); return 1
+        print("replay: the recorded input no longer fails"); return 0
+    return run(tier, seed)
+
+
 # ---------------------------------------------------------------- entry
 
 def run(tier, seed):
@@ -636,17 +912,30 @@ def run(tier, seed):
                 "generated texts with tokens at lengths 14/15/16/89/90/91, adjacent tokens, multi-byte neighbours, '=' padding; the "
                 "real classifier's verdict per token travels in the request); end-to-end: one case = one (note-writing path, "
                 "prompt-storage configuration, agent kind) scenario on the real binary, oracle over every blob reachable from "
-                "refs/notes/ai; distinct = distinct request JSON / scenario key")
+                "refs/notes/ai; e2e-cas: one case = one (commit|amend, number of sessions, session without transcript, "
+                "sqlite fault = set of sessions whose queue INSERT fails | lock | unopenable db) scenario in mode default with CAS "
+                "upload, judged by the blob walk and compared with the Lean Default arm run on the same prompt map and outcome "
+                "vector; distinct = distinct request JSON / scenario key")
     res.trusted = ["Lean 4.33 kernel (axioms: propext, Quot.sound, Classical.choice only)",
-                   "extract/storage_mode_table.py (call-site inventory, working-log taint by unique function name, filter shape)",
+                   "extract/storage_mode_table.py (call-site inventory, working-log taint by unique function name, filter shape, "
+                   "control flow of the upload loop: `?` vs continue, clear after enqueue, single caller, only Ok is the final one)",
                    "harness/src/suites/c08.rs generators, reference redaction and canonicalisation",
                    "vlib/props/c08.py scenarios and blob walk; vlib/e2e.py",
                    "glob::Pattern::matches and is_random are opaque inputs of the model (their real results travel in the requests)"]
     res.assumptions = ["the effective mode is fixed during a history (mode changes mid-history are out of scope)",
                        "tool_use inputs are outside the masking theorems (the code does not redact them; reported as a finding)",
                        "to_lowercase modelled on ASCII letters (no other char lower-cases to a letter of default/notes/local)",
+                       "the outcome of every enqueue_cas_object call, serde_json::to_value and of opening the database is an input of "
+                       "the model (any vector); sqlite itself is not modelled",
                        "refs/notes/ai-stash is local-only (never in a push refspec); its content is not covered by the property"]
     x = phase_extract(res)
+    if x is not None:
+        # the CAS-upload scenarios drive every writer that runs the filter (commit → post_commit, amend → rewrite_…_commit_amend)
+        filtering = sorted(r["name"] for r in x["rows"] if r["filters"])
+        covered = sorted(CAS_WRITERS.values())
+        res.obligation(f"e2e-cas: scenarios cover every filtering writer of the table ({filtering})", filtering == covered, "extraction")
+        if filtering != covered:
+            res.broken_tie("e2e-cas: filtering writers vs CAS scenario paths", {"table": filtering, "scenarios": CAS_WRITERS})
     C.phase_proofs(res, PROP, THEOREMS)
     ok, out = C.build_harness()
     if not ok:
@@ -656,15 +945,24 @@ def run(tier, seed):
     n = 4000 if tier == "quick" else 250000
     corpus = os.path.join(C.VERIF, "corpus", "C08", "cases.jsonl")
     bad, newfail = C.phase_suite(res, "c08", seed, n, corpus)
+    cas_ok, _ = C.build_git_ai()
+    cas_ex = concurrent.futures.ThreadPoolExecutor(6)
+    cas_futs = phase_cas_start(cas_ex, tier, seed) if cas_ok else []
     phase_e2e(res, tier, seed)
+    if cas_ok:
+        phase_cas_collect(res, cas_futs, tier, seed)
+    cas_ex.shutdown(wait=True)
     if res.broken and not res.violations:
         # a tie broke (extractor shape / theorem / model≠code / scenario): search harder for a failing input
         for s in range(seed + 1000, seed + 1003):
             C.phase_suite(res, "c08", s, 20000, None, name=f"search:c08:{s}")
             if res.violations:
                 break
+        if not res.violations and cas_ok:
+            with concurrent.futures.ThreadPoolExecutor(8) as ex:
+                phase_cas_collect(res, phase_cas_start(ex, "thorough", seed + 1), "thorough", seed + 1, name="search:e2e-cas")
         if not res.violations:
             phase_e2e(res, "thorough", seed + 1, name="search:e2e")
         res.extra["search"] = ("3 extra seeds x 20000 cases of the c08 generators with all oracles on the implementation, then the thorough "
-                               "end-to-end matrix (every path x every include/exclude configuration x both agent kinds)")
+                               "CAS-upload fault matrix and the thorough end-to-end matrix (every path x every include/exclude configuration x both agent kinds)")
     return res.finish()
